@@ -2,6 +2,7 @@ import NavisModel.Proofs.ResampleLemmas
 import NavisModel.Proofs.ResampleGeomLemmas
 import NavisModel.Proofs.ResampleRealLemmas
 import NavisModel.Proofs.DownsampleLemmas
+import NavisModel.Proofs.BranchingLemmas
 /-!
 # C13 — down- and resampling preserve branching structure and geometry
 
@@ -101,36 +102,55 @@ theorem downsample_WF (t : Table) (hw : WF t) (f : Option Nat) (pres : List Int)
     WF (downsample t f pres) ∧ (downsample t f pres = t ∨ labelsOKB (downsample t f pres) = true) :=
   ⟨WF_downsample hw f pres, labelsOKB_downsample t f pres⟩
 
-/-
-Full statement of "branching structure unchanged" (not proved in this form):
+/-- **Branching structure unchanged**: every kept node has exactly as many children in the result as in
+`t` — the children of a kept node `i` in the result are in bijection with the children of `i` in `t` (each
+child's chain of dropped single-child nodes leads to exactly one kept node). -/
+theorem downsample_branching_unchanged (t : Table) (hw : WF t) (hl : labelsOKB t = true) (f : Option Nat)
+    (pres : List Int) (i : Int) (hi : i ∈ ids (downsample t f pres)) :
+    childCount (downsample t f pres) i = childCount t i :=
+  childCount_contract hw (downsample_contracts hw hl f pres) hi
 
-  theorem downsample_branching_unchanged (t) (hw : WF t) (hl : labelsOKB t = true) (f pres) :
-      ∀ i ∈ ids (downsample t f pres), (childCount t i ≠ 1 ∨ i is a root) →
-        childCount (downsample t f pres) i = childCount t i
-
-What is proved: forks, tips and roots all survive (`downsample_keeps_roots_leafs_branches`), every kept
-node hangs below its nearest kept ancestor (`downsample_parent_is_kept_ancestor`), and a tip stays a tip
-(`downsample_branching_unchanged_partial` below).  Missing: the counting argument that the children of a
-kept node `i` in the result are in bijection with the children of `i` in `t` (each child's chain of
-dropped single-child nodes leads to exactly one kept node).  The equality of child counts of all
-roots / leafs / branch points is checked on navis' output and on the model's output by the harness.
--/
-/-- A kept node without children in `t` has no children in the result (a tip stays a tip); more
-generally every child in the result witnesses a child in `t`. -/
-theorem downsample_branching_unchanged_partial (t : Table) (hw : WF t) (hl : labelsOKB t = true)
-    (f : Option Nat) (pres : List Int) (i : Int) (h : 0 < childCount (downsample t f pres) i) (hi : 0 ≤ i) :
-    0 < childCount t i := by
-  obtain ⟨c, hc, hcp⟩ := exists_child_of_pos h
-  rcases downsample_parent_is_kept_ancestor t hw hl f pres c hc with hneg | ⟨_, between, above, hpath, _⟩
-  · omega
-  · have hl2 := rootPath_linked t c.id
-    have hmem : c.parent ∈ (rootPath t c.id).tail := by rw [hpath]; simp
-    cases hrp : rootPath t c.id with
-    | nil => rw [hrp] at hmem; simp at hmem
-    | cons y l =>
-      rw [hrp] at hl2 hmem
-      rw [← hcp]
-      exact Linked_childCount_pos y l hl2 _ hmem
+/-- Hence the roots, tips and forks of the result are exactly those of `t`: a node is "not a non-root with
+exactly one child" in the result iff it is so in `t` (same child count, same root status). -/
+theorem downsample_same_forks_and_tips (t : Table) (hw : WF t) (hl : labelsOKB t = true) (f : Option Nat)
+    (pres : List Int) (n : Node) (hn : n ∈ t) (ha : n.parent < 0 ∨ childCount t n.id ≠ 1) :
+    ∃ m ∈ downsample t f pres, m.id = n.id ∧ childCount (downsample t f pres) m.id = childCount t n.id ∧
+      (m.parent < 0 ↔ n.parent < 0) := by
+  have hk := downsample_keeps_roots_leafs_branches t hw hl f pres n hn ha
+  obtain ⟨m, hm, hmid⟩ := mem_ids.mp hk
+  refine ⟨m, hm, hmid, by rw [hmid]; exact downsample_branching_unchanged t hw hl f pres n.id hk, ?_⟩
+  have hf := find?_of_mem hw.1 hn
+  constructor
+  · intro hneg
+    rcases downsample_parent_is_kept_ancestor t hw hl f pres m hm with _ | ⟨hpk, _⟩
+    · -- a kept node with a negative new parent was a root: otherwise its old root is a kept ancestor
+      apply Classical.byContradiction
+      intro hnr
+      obtain ⟨_, _, h3⟩ := downsample_satisfies_spec t hw hl f pres [] (by simp)
+      rcases h3 m hm with ⟨hnone, _⟩ | ⟨a, ha', hpa, _⟩
+      · -- the parent of `n` is on the tail and some ancestor (the root of the tree) is kept
+        rw [hmid, rootPath_of_nonroot hw hf hnr] at hnone
+        simp only [List.tail_cons] at hnone
+        have hpin := WF_parent_mem hw hn hnr
+        obtain ⟨r, nr, hlast, hfr, hrp⟩ := rootPath_ends hw n.parent hpin
+        have hrmem : r ∈ rootPath t n.parent := List.mem_of_getLast? hlast
+        have hrk : r ∈ ids (downsample t f pres) := by
+          have := (find?_some hfr)
+          rw [← this.2]
+          exact downsample_keeps_roots_leafs_branches t hw hl f pres nr this.1 (Or.inl hrp)
+        rw [List.find?_eq_none] at hnone
+        exact hnone r hrmem (by simpa using hrk)
+      · have := ids_nonneg (WF_downsample hw f pres).2.1 (List.mem_of_find?_eq_some ha' |> fun _ => by
+          have := List.find?_some ha'; simpa using this)
+        omega
+    · have := ids_nonneg (WF_downsample hw f pres).2.1 hpk
+      omega
+  · intro hneg
+    obtain ⟨_, _, h3⟩ := downsample_satisfies_spec t hw hl f pres [] (by simp)
+    rcases h3 m hm with ⟨_, h⟩ | ⟨a, ha', _, _⟩
+    · exact h
+    · rw [hmid, rootPath_of_root hf hneg] at ha'
+      simp at ha'
 
 /-! ## Resampling: rounding and node count -/
 
@@ -280,6 +300,25 @@ theorem resample_not_longer (pts : List Pt) (lens : List Rat) (h : LensOK pts le
     (ht : 0 ≤ total) (k : Nat) :
     chainLen (samples (knots 0 pts lens) total k) ≤ (total : ℝ) :=
   chainLen_samples_le _ (knots_arcOK 0 pts lens h) total ht k
+
+/-- **Whole skeleton**: the resampled skeleton — the chains through the samples of all small segments,
+with any number `kOf s` of interior nodes per segment — is at most as long as the original cable, whenever
+the edge-length function never under-estimates the distance of two nodes (exact Euclidean lengths). -/
+theorem resample_total_not_longer (t : Table) (hw : WF t) (pt : Int → Pt) (len : Int → Int → Nat)
+    (hlen : ∀ a b, sqd (pt a) (pt b) ≤ ((len a b : Nat) : Rat) * ((len a b : Nat) : Rat)) (kOf : List Int → Nat) :
+    ((smallSegments t).map fun s =>
+        chainLen (samples (segKnots pt len s) ((pathLen len s : Nat) : Rat) (kOf s))).sum ≤ ((cable t len : Nat) : ℝ) := by
+  have hall : ∀ s ∈ smallSegments t, isParentPath t s = true := by
+    intro s hs
+    have := smallSegments_shape hw s hs
+    simp only [Bool.and_eq_true] at this
+    exact this.1.1.1.1
+  rw [← sum_pathLen_eq_cable hw.1 len (smallSegments t) hall (smallSegments_cover hw)]
+  apply sum_chain_le
+  intro s
+  have := chainLen_samples_le (segKnots pt len s) (knots_arcOK 0 _ _ (lensOK_seg pt len hlen s))
+    ((pathLen len s : Nat) : Rat) (by positivity) (kOf s)
+  exact_mod_cast this
 
 /-! ## Resampling: nearest-node remap -/
 
